@@ -36,6 +36,6 @@ def chainExtends : List (String × String) := [("v0", "v1"), ("v2", "v0"), ("v3"
 def unsignedLadder : List String := ["u8", "u16", "u32", "u64"]
 def signedLadder : List String := ["i8", "i16", "i32", "i64"]
 /-- `_get_decimal_places`: `if decimals > N: return None`; `_compress_data`: `len(array) == N` takes the uncompressed path. -/
-def maxDecimals : Int := 20
+def maxDecimals : Int := 18
 def singleValueLength : Nat := 1
 end BiotiteModel.Gen.C05
